@@ -643,13 +643,25 @@ func (a *Agent) CreateICMPSession(ctx context.Context, destIP net.IP) (uint64, e
 	select {
 	case <-ctx.Done():
 		assoc.closePendingOpen(ctx.Err())
+		a.removeICMPIngress(streamID, assoc)
 		return 0, ctx.Err()
 	case <-assoc.PendingOpen:
 		if assoc.OpenErr != nil {
+			a.removeICMPIngress(streamID, assoc)
 			return 0, assoc.OpenErr
 		}
 		return streamID, nil
 	}
+}
+
+// removeICMPIngress drops the ingress record of a session whose open failed
+// (nobody will ever call CloseICMPSession for it).
+func (a *Agent) removeICMPIngress(streamID uint64, assoc *icmpIngressAssociation) {
+	a.icmpIngressMu.Lock()
+	if a.icmpIngressByStream[streamID] == assoc {
+		delete(a.icmpIngressByStream, streamID)
+	}
+	a.icmpIngressMu.Unlock()
 }
 
 // SetSOCKS5ICMPAssociation links a SOCKS5 ICMP association to an ingress stream.
